@@ -307,6 +307,31 @@ fn train_prefixes<T: NumberLike>(
   Ok(prefixes)
 }
 
+#[cfg(feature = "qco_verif")]
+pub(crate) fn hook_choose_max_n_prefixes(comp_level: usize, n_unsigneds: usize) -> usize {
+  choose_max_n_prefixes(comp_level, n_unsigneds)
+}
+
+#[cfg(feature = "qco_verif")]
+pub(crate) fn hook_choose_unoptimized_prefixes<T: NumberLike>(
+  sorted: &[T::Unsigned],
+  comp_level: usize,
+  flags: &Flags,
+) -> Vec<(usize, usize, T::Unsigned, T::Unsigned, Option<usize>, T::Unsigned)> {
+  let internal_config = InternalCompressorConfig { compression_level: comp_level };
+  choose_unoptimized_prefixes::<T>(sorted, &internal_config, flags)
+    .iter()
+    .map(|wp| (
+      wp.prefix.count,
+      wp.weight,
+      wp.prefix.lower.to_unsigned(),
+      wp.prefix.upper.to_unsigned(),
+      wp.prefix.run_len_jumpstart,
+      wp.prefix.gcd,
+    ))
+    .collect()
+}
+
 #[derive(Clone)]
 struct TrainedChunkCompressor<U: UnsignedLike, GcdOp: GcdOperator<U>> {
   pub table: CompressionTable<U>,
